@@ -60,7 +60,7 @@ func parseOp(nk int, s string) (op, bool) {
 		}
 		return op{kind: opOpen, key: k, ok: s[2] == 'o'}, true
 	}
-	if len(s) == 2 && strings.IndexByte("SDdRZP", s[0]) >= 0 {
+	if len(s) == 2 && strings.IndexByte("SDdRZPAF", s[0]) >= 0 {
 		k, ok := digit(s[1])
 		if !ok || k >= nk {
 			return op{}, false
@@ -77,7 +77,7 @@ func parseCase(line string) (nk int, progs [][]op, sched []int, mode int, ok boo
 			f = append(f, x)
 		}
 	}
-	if len(f) != 4 || (f[0] != "sched" && f[0] != "writers" && f[0] != "hosts") || len(f[1]) != 1 {
+	if len(f) != 4 || (f[0] != "sched" && f[0] != "writers" && f[0] != "hosts" && f[0] != "listeners") || len(f[1]) != 1 {
 		return
 	}
 	switch f[0] {
@@ -85,6 +85,8 @@ func parseCase(line string) (nk int, progs [][]op, sched []int, mode int, ok boo
 		mode = modeWriters
 	case "hosts":
 		mode = modeHosts
+	case "listeners":
+		mode = modeListeners
 	}
 	// a client line has only its client's operations, a `sched` line none
 	for i := 0; i < len(f[2]); i++ {
@@ -99,8 +101,12 @@ func parseCase(line string) (nk int, progs [][]op, sched []int, mode int, ok boo
 			if !(sep || ch == 'P' || ch == 'c') {
 				return
 			}
+		case modeListeners:
+			if !(sep || ch == 'A' || ch == 'F' || ch == 'c') {
+				return
+			}
 		default:
-			if ch == 'O' || ch == 'c' || ch == 'P' || ch == 'L' {
+			if ch == 'O' || ch == 'c' || ch == 'P' || ch == 'L' || ch == 'A' || ch == 'F' {
 				return
 			}
 		}
@@ -111,6 +117,9 @@ func parseCase(line string) (nk int, progs [][]op, sched []int, mode int, ok boo
 	}
 	if mode == modeWriters && nk > 3 {
 		return // key 3 is reserved for `sched` lines
+	}
+	if mode == modeListeners && nk > 2 {
+		return
 	}
 	for _, ps := range strings.Split(f[2], ";") {
 		var p []op
@@ -164,6 +173,9 @@ func (prop) Run(line string) core.Outcome {
 	nk, progs, sched, mode, ok := parseCase(line)
 	if !ok {
 		return core.Outcome{Impl: "bad-op", Tags: []string{"malformed", "trivial"}}
+	}
+	if mode == modeListeners {
+		return runListeners(nk, progs, sched)
 	}
 	if hangCount.Load() >= hangsBeforeSkipping {
 		return core.Outcome{Impl: "skipped:too-many-hangs", Tags: []string{"skipped-after-hangs"}}
